@@ -18,6 +18,10 @@ CONCRETE = {
     's_esc': 'q"\\\n\t\u0000\u001fé中\U0001F600/',
     'a_empty': [], 'a_1': [1], 'a_deep': _DEEP_ARR,
     'o_empty': {}, 'o_a': {'a': 1}, 'o_deep': _DEEP_OBJ,
+    'm_ok': 'ok', 'm_one': 'one', 'm_perr': 'perr', 'm_exc': 'exc', 'm_unk': 'nope',
+    'mw_short': 'mw_short', 'mw_rewritten': 'mw_rewritten',
+    'r_none': {'a': None, 'b': None}, 'r_a1': {'a': 1, 'b': None}, 'r_deep': {'a': 1, 'b': _DEEP_ARR[1]},
+    'r_one_a1': {'a': 1, 'only': 'one'},
     'c_m32700': -32700, 'c_m32600': -32600, 'c_m32601': -32601, 'c_m32602': -32602,
     'c_m32603': -32603, 'c_m32000': -32000, 'c_m32050': -32050, 'c_2001': 2001,
 }
